@@ -111,8 +111,23 @@ fn diff_outside_user(a: &Snap, b: &Snap, except: &[u16]) -> Option<String> {
 
 pub fn check(tape: &[u32], st: &mut Stats) -> Result<(), String> {
     let mut t = Tape::new(tape);
-    let c = gen_attack(&mut t);
+    let mut c = gen_attack(&mut t);
+    // (read after the case) a quarter of the attacks run in strict mode on a machine whose words and registers are all
+    // initialized: strict mode then never reports anything (C14) and must enforce exactly the same boundaries
+    let strict_full = t.chance(1, 4);
+    c.spec.strict = strict_full;
     let mut rig = build_rig(&c.spec);
+    if strict_full {
+        for addr in 0..=u16::MAX {
+            let v = rig.sim.mem[addr].get();
+            rig.sim.mem[addr].set(v);
+        }
+        for i in 0..8 {
+            let v = rig.sim.reg_file[reg(i)].get();
+            rig.sim.reg_file[reg(i)].set(v);
+        }
+        st.class("strict-mode-on-fully-initialized-machine");
+    }
     let real = c.spec.real_traps;
     let mut nontrivial = false;
     for step in 0..c.steps {
@@ -233,7 +248,9 @@ pub fn check(tape: &[u32], st: &mut Stats) -> Result<(), String> {
 
 pub fn describe(tape: &[u32]) -> Value {
     let mut t = Tape::new(tape);
-    describe_state(&gen_attack(&mut t))
+    let mut v = describe_state(&gen_attack(&mut t));
+    v["strict_mode_on_fully_initialized_machine"] = serde_json::json!(t.chance(1, 4));
+    v
 }
 
 pub fn run(ctx: &Ctx) -> Outcome {
@@ -246,7 +263,7 @@ pub fn run(ctx: &Ctx) -> Outcome {
     let cfg = TapeCfg::new(ctx, 8000, 400_000, 400);
     out.shards = cfg.shards;
     out.absorb(tape_search(ctx, "main", &cfg, check, describe));
-    out.essential = ["attack:fetch:virtual", "attack:fetch:real", "attack:operand:virtual", "attack:operand:real", "attack:rti:virtual", "attack:rti:real", "target:below-user", "target:io-page", "legal-user-step"].iter().map(|s| s.to_string()).collect();
+    out.essential = ["attack:fetch:virtual", "attack:fetch:real", "attack:operand:virtual", "attack:operand:real", "attack:rti:virtual", "attack:rti:real", "target:below-user", "target:io-page", "legal-user-step", "strict-mode-on-fully-initialized-machine"].iter().map(|s| s.to_string()).collect();
     out
 }
 
